@@ -94,7 +94,9 @@ func (n *Net) Dial(ctx context.Context, network, hostport string) (net.Conn, err
 	if l == nil {
 		return nil, fmt.Errorf("dial %s: %w", hostport, ErrRefused)
 	}
-	c, s := net.Pipe()
+	pc, ps := net.Pipe()
+	c := &clientConn{Conn: pc}
+	var s net.Conn = &serverConn{Conn: ps, peer: c}
 	select {
 	case l.conns <- s:
 		return c, nil
@@ -107,6 +109,44 @@ func (n *Net) Dial(ctx context.Context, network, hostport string) (net.Conn, err
 		s.Close()
 		return nil, ctx.Err()
 	}
+}
+
+// clientConn is the dialling side of a connection. Once the serving side has
+// called FailPeerReads(err), a Read that finds the connection ended reports err
+// instead of io.EOF: the way a transport reports that its peer reset the
+// connection (e.g. a libp2p stream reset: network.ErrReset) rather than
+// closing it.
+type clientConn struct {
+	net.Conn
+	mu      sync.Mutex
+	readErr error
+}
+
+func (c *clientConn) Read(b []byte) (int, error) {
+	n, err := c.Conn.Read(b)
+	if err != nil {
+		c.mu.Lock()
+		re := c.readErr
+		c.mu.Unlock()
+		if re != nil {
+			return n, re
+		}
+	}
+	return n, err
+}
+
+// serverConn is the accepting side; what a handler gets from Hijack.
+type serverConn struct {
+	net.Conn
+	peer *clientConn
+}
+
+// FailPeerReads makes the dialling side's reads fail with err from the moment
+// this side is closed (bytes written before are still delivered).
+func (s *serverConn) FailPeerReads(err error) {
+	s.peer.mu.Lock()
+	s.peer.readErr = err
+	s.peer.mu.Unlock()
 }
 
 // Transport returns an http.Transport that dials this network. The
